@@ -73,6 +73,9 @@ func init() {
 				case *ast.DeferStmt:
 					out = append(out, "defer "+x.src(s.Call))
 				case *ast.ReturnStmt:
+					if len(s.Results) == 0 {
+						out = append(out, "return")
+					}
 					for _, r := range s.Results {
 						out = append(out, "return "+x.src(r))
 					}
@@ -96,10 +99,31 @@ func init() {
 			return nil
 		}
 
+		lastIf := func(b *ast.BlockStmt) *ast.IfStmt {
+			var l *ast.IfStmt
+			for _, st := range b.List {
+				if s, ok := st.(*ast.IfStmt); ok {
+					l = s
+				}
+			}
+			return l
+		}
 		// WriteHeader: guard, compress condition, what the compress branch does, the fallback, the final call
 		if fd := x.funcDecl(dir, "GzipResponseWriter", "WriteHeader"); fd != nil {
 			x.defStrList("writeHeaderStmts", stmtCalls(fd.Body))
-			if outer := firstIf(fd.Body); outer != nil {
+			// the 1xx early return comes first; the decision guard is the if after it
+			var ifs []*ast.IfStmt
+			for _, st := range fd.Body.List {
+				if s, ok := st.(*ast.IfStmt); ok {
+					ifs = append(ifs, s)
+				}
+			}
+			if len(ifs) == 2 {
+				x.defStrList("informationalBranch", stmtCalls(ifs[0].Body))
+			} else {
+				x.fail("WriteHeader: expected the 1xx early return and the decision guard, found %d if statements", len(ifs))
+			}
+			if outer := lastIf(fd.Body); outer != nil {
 				x.defStr("writeHeaderGuard", x.src(outer.Cond))
 				if inner := firstIf(outer.Body); inner != nil {
 					x.defStr("compressCond", x.src(inner.Cond))
@@ -247,6 +271,50 @@ func init() {
 			}
 		}
 		x.defStrList("writerAssignments", assigns)
+
+		// the method set of *GzipResponseWriter: declared methods plus what the embedded fields promote
+		var methods []string
+		for _, f := range x.files(dir) {
+			for _, d := range f.Decls {
+				fd, ok := d.(*ast.FuncDecl)
+				if !ok || fd.Recv == nil || len(fd.Recv.List) != 1 {
+					continue
+				}
+				t := fd.Recv.List[0].Type
+				if st, ok := t.(*ast.StarExpr); ok {
+					t = st.X
+				}
+				if id, ok := t.(*ast.Ident); ok && id.Name == "GzipResponseWriter" {
+					methods = append(methods, fd.Name.Name)
+				}
+			}
+		}
+		x.defSortedStrList("writerMethods", methods)
+		var fields, embedded []string
+		for _, f := range x.files(dir) {
+			ast.Inspect(f, func(n ast.Node) bool {
+				ts, ok := n.(*ast.TypeSpec)
+				if !ok || ts.Name.Name != "GzipResponseWriter" {
+					return true
+				}
+				st, ok := ts.Type.(*ast.StructType)
+				if !ok {
+					x.fail("GzipResponseWriter is not a struct")
+					return false
+				}
+				for _, fl := range st.Fields.List {
+					if len(fl.Names) == 0 {
+						embedded = append(embedded, x.src(fl.Type))
+					}
+					for _, nm := range fl.Names {
+						fields = append(fields, nm.Name+" "+x.src(fl.Type))
+					}
+				}
+				return false
+			})
+		}
+		x.defStrList("writerFields", fields)
+		x.defStrList("writerEmbedded", embedded)
 
 		// proxy/http_proxy.go: the handler is wrapped iff GZIPContentTypes is configured
 		if fd := x.funcDecl("proxy", "HTTPProxy", "ServeHTTP"); fd != nil {
